@@ -662,7 +662,7 @@ theorem sync_current_covers (s : Sys) (hwf : s.WF) (idx : Nat) (cache : List JcS
     optLe (some t) (stepSys true s (.sync idx cache)).api.status.lastScheduled := by
   have hmem : read ∈ s.versions := List.mem_of_getElem? hread
   have hst : read.status = s.api.status := (hwf read hmem).2 hcur
-  have hcov := lastScheduled_ge_all read (listJobs cache read) j t hj ht hz
+  have hcov := lastScheduled_ge_listed read (listJobs cache read) j t hj ht hz
   simp only [stepSys, hread]
   unfold syncCore
   simp only
